@@ -21,6 +21,11 @@ def run(rep, tier):
     rep.rule("R3", "the 3.13 inline-cache table used by the finders equals CPython 3.13's cache counts")
     rep.rule("R4", "3.11+: the exception-table targets that are added to the label set are decoded as CPython decodes them (varint and entry obligations of C17-R1/R2, restated)")
     T = collect(rep, "C04", _work)
+    extra_rules(rep, T, tier)
+
+
+def extra_rules(rep, T, tier="quick"):
+    """R2-R4: label provenance, 3.13 cache table, exception-table decoder"""
     F = T.F
     # ---- R2: provenance of `labels`
     from ..disasm_sum import instr_summary
